@@ -60,7 +60,7 @@ ASSUMPTIONS = [
     "claim holds on the lattice only",
 ]
 REQUIRED_CLASSES = [
-    "reconf", "reconf:plasma-changed", "reconf:plasma-same", "reconf:element", "reconf:energy", "reconf:length", "reconf:step",
+    "reconf", "reconf:plasma-changed", "reconf:plasma-same", "reconf:element", "reconf:energy", "reconf:length", "reconf:step", "reconf:place", "reconf:plasma-place",
     "plasma:none", "plasma:uniform", "plasma:nonuniform", "plasma:slab",
     "place:identity", "place:translated", "place:rot90",
     "div:none", "div:x-only", "div:y-only", "div:equal", "div:unequal",
@@ -145,7 +145,7 @@ def _mod():
             beam.attenuator = SingleRayAttenuator(step=step, clamp_to_zero=True, clamp_sigma=clamp)
         return beam, (world, pnode, plasma, bparent)
 
-    _cache.update(np=np, M=M, build=build, elements=elements, species=species, AD=AD)
+    _cache.update(np=np, M=M, build=build, elements=elements, species=species, AD=AD, mat=mat)
     return _cache
 
 
@@ -177,7 +177,8 @@ def cases(tier):
 
 RECONF_BASE = {"energy": 6e4, "power": 1e6, "element": "deuterium", "length": 3.0, "step": 0.05}
 RECONF_ALT = {"energy": 1e3, "power": 2.5e5, "element": "hydrogen", "length": 1.7, "step": 0.3}
-RECONF_CHANGES = [[], ["element"], ["energy"], ["power"], ["length"], ["step"], ["element", "energy"], ["energy", "length", "step"]]
+RECONF_CHANGES = [[], ["element"], ["energy"], ["power"], ["length"], ["step"], ["element", "energy"], ["energy", "length", "step"],
+                  ["place"], ["place", "energy"], ["plasma-place"]]
 
 
 def _run_reconf(case):
@@ -187,10 +188,12 @@ def _run_reconf(case):
     V = _V()
     ka, kb, changes = case["from"], case["to"], case["changes"]
     place, sigma = "translated", 0.05
+    place_b = "rot90" if "place" in changes else place
     A = dict(RECONF_BASE)
     B = dict(RECONF_BASE)
     for k in changes:
-        B[k] = RECONF_ALT[k]
+        if k in RECONF_ALT:
+            B[k] = RECONF_ALT[k]
     classes = ["reconf", "reconf:plasma-changed" if ka != kb else "reconf:plasma-same"] + ["reconf:" + k for k in changes]
     n = 0
     for observe_first in (True, False):
@@ -213,7 +216,14 @@ def _run_reconf(case):
             beam.length = B["length"]
         if "step" in changes:
             beam.attenuator.step = B["step"]
-        ref = M.axis_reference(kb, place, B["element"], B["energy"], B["length"], B["step"])
+        if "place" in changes:
+            beam.transform = c["mat"](M.PLACEMENTS[place_b][1])        # the beam is moved / rotated in the scene graph
+        if "plasma-place" in changes:
+            # the plasma's parent node is moved away and back: two scene-graph notifications, same final placement
+            keep[1].transform = c["mat"]([("t", 0.7, -0.2, 0.3)])
+            beam.density(0.0, 0.0, 0.25 * B["length"])
+            keep[1].transform = c["mat"](M.PLASMA_PARENT_OPS)
+        ref = M.axis_reference(kb, place_b, B["element"], B["energy"], B["length"], B["step"])
         lam0 = M.source_line_density(B["power"], B["energy"], c["elements"][B["element"]].atomic_weight)
         zn = ref["z"]
         a_end = float(ref["a_trap"][-1])
